@@ -447,7 +447,18 @@ func c16E2E(res *lib.Result, tier string, root *lib.Rng) error {
 		var blocks []c16Block
 		nb := 2 + r.Intn(3)
 		for b := 0; b < nb; b++ {
-			switch r.Intn(3) {
+			switch r.Intn(4) {
+			case 3:
+				// a generic function: the names a ---@generic line introduces are types in its own block
+				fn := fmt.Sprintf("g%d", b)
+				gt, gk := fmt.Sprintf("GT%d", b), fmt.Sprintf("GK%d", b)
+				bl := c16Block{use: fn, keep: map[int][]string{}}
+				bl.lines = append(bl.lines, "---@generic "+gt+" : string, "+gk, "---@param aa "+gt, "---@param bb "+gk+"[]", "---@return table<string, "+gt+">",
+					"local function "+fn+"(aa, bb) return aa end")
+				bl.annot = []int{1, 2}
+				bl.keep[1] = []string{"bb: " + gk + "[]"}
+				bl.keep[2] = []string{"aa: " + gt}
+				blocks = append(blocks, bl)
 			case 0:
 				cls := fmt.Sprintf("Cls%d", b)
 				fields := []string{"fa", "fb", "fc"}
@@ -555,6 +566,14 @@ func c16E2E(res *lib.Result, tier string, root *lib.Rng) error {
 		if err != nil {
 			res.AddViolation("crash-or-timeout", err.Error(), cleanSrc, false)
 			continue
+		}
+		// the clean file: every line is documented syntax, none may get an annotation SYNTAX warning, and the names
+		// introduced by ---@generic are not "undefined types" (the grammar's sample names People, Car … are not declared
+		// anywhere: "not define annotate type" about THEM is expected)
+		for k := range base.d18 {
+			if strings.Contains(k, "syntax error") || strings.Contains(k, ": GT") || strings.Contains(k, ": GK") {
+				res.AddViolation("impl-vs-spec", "a documented annotation line of a clean file gets the warning "+k, cleanSrc, false)
+			}
 		}
 		// corrupt one annotation line so that the real parser rejects it
 		cb := r.Intn(len(blocks))
